@@ -19,7 +19,7 @@ package main
 //  ck-file missing G n=N                           => loaded=[…zeros…] exist=false
 //  ck-file unwritable G f12=swallows|reports       => save=ok|err written=no
 //  ck-ro cb|file G n=N pre=DOCS state=DOCS dirty=VBS => save=ok changed=no same=yes loaded=[…] exist=B
-//  ck-bulk cb G n=N lat=MS salt=K pre=M skip=S fail=-|VB
+//  ck-bulk cb G n=N lat=MS salt=K pre=M skip=S fail=-|VB|VBv
 //                                                  => save=ok keys=W ops=T stray=X loaded=[vb(U,S,SS,SE) …] exist=B | save=err
 //       ONE Save of a large dirty set (N up to 1024 vBuckets) through the real couchbase back end against a
 //       1024-vBucket node that answers every KV write after MS milliseconds (so the writes of the save overlap),
@@ -556,6 +556,8 @@ type ckBulkEnv struct {
 	mu      sync.Mutex
 	lat     time.Duration
 	failKey string
+	vanish  bool // the document of failKey "vanishes" after it was created: the SECOND sub-document write is answered KEY_ENOENT
+	seenFk  int  // sub-document writes to failKey seen so far
 }
 
 func (e *ckEnv) bulkEnv() *ckBulkEnv {
@@ -580,9 +582,18 @@ func (e *ckEnv) bulkEnv() *ckBulkEnv {
 		b.mu.Lock()
 		lat, fk := b.lat, b.failKey
 		if fk != "" && r.Opcode == memd.CmdSubDocMultiMutation && strings.HasSuffix(string(r.Key), fk) {
-			b.failKey = ""
-			b.mu.Unlock()
-			return sim.Status(memd.StatusInternalError).After(lat)
+			b.seenFk++
+			if b.vanish {
+				if b.seenFk == 2 {
+					b.failKey = ""
+					b.mu.Unlock()
+					return sim.Status(memd.StatusKeyNotFound).After(lat)
+				}
+			} else {
+				b.failKey = ""
+				b.mu.Unlock()
+				return sim.Status(memd.StatusInternalError).After(lat)
+			}
 		}
 		b.mu.Unlock()
 		if lat > 0 {
@@ -596,7 +607,7 @@ func (e *ckEnv) bulkEnv() *ckBulkEnv {
 
 func (b *ckBulkEnv) script(lat time.Duration, failKey string) {
 	b.mu.Lock()
-	b.lat, b.failKey = lat, failKey
+	b.lat, b.failKey, b.vanish, b.seenFk = lat, failKey, false, 0
 	b.mu.Unlock()
 }
 
@@ -619,10 +630,18 @@ func (e *ckEnv) bulkSave(group string, kv map[string]string) string {
 		return "bad-op"
 	}
 	failVb := -1
+	vanish := false
 	if f := kv["fail"]; f != "-" {
+		if strings.HasSuffix(f, "v") { // fail=VBv: the document vanishes between its creation and the repeated write
+			vanish = true
+			f = strings.TrimSuffix(f, "v")
+		}
 		v, err := strconv.Atoi(f)
 		if err != nil || v < 0 || v >= n || (skip > 0 && v%skip == skip-1) {
 			return "bad-op" // the failing vBucket must be one the save writes
+		}
+		if vanish && preM > 0 && v%preM == 0 {
+			return "bad-op" // the vanishing document must be one the save has to create
 		}
 		failVb = v
 	}
@@ -676,6 +695,11 @@ func (e *ckEnv) bulkSave(group string, kv map[string]string) string {
 	}
 	b.node.ResetLogs()
 	b.script(time.Duration(lat)*time.Millisecond, fk)
+	if vanish {
+		b.mu.Lock()
+		b.vanish = true
+		b.mu.Unlock()
+	}
 	err := md.Save(state, dirty, "u")
 	b.script(0, "")
 	if err != nil {
@@ -1097,6 +1121,12 @@ func runC02W(c *Ctx) {
 	for _, n := range []int{1, 40, 200, 1024} {
 		fail := r.Intn(n)
 		bulk(n, 2, 0, 0, fail, "bulk-failed-write", fmt.Sprintf("bulk-n%d", n))
+	}
+	// the document of one vBucket vanishes between its creation and the repeated xattr write (another member's Clear, a flush):
+	// the server confirmed nothing for it, so the save must not report success
+	for _, n := range []int{1, 2, 40, 300} {
+		fail := r.Intn(n)
+		one(fmt.Sprintf("ck-bulk cb %s n=%d lat=%d salt=%d pre=0 skip=0 fail=%dv", group(), n, 1, r.Intn(1<<30), fail), true, "bulk-vanished-document", fmt.Sprintf("bulk-n%d", n))
 	}
 	c.Extra["bulk_max_ms"] = bulkMax.Milliseconds()
 }
